@@ -43,6 +43,9 @@ type Job struct {
 	// Config: "" = the shipped test configuration (/repo/test/.ti-config); "core" = the
 	// subset of its files listed in coreConfigFiles (stated as part of the bound).
 	Config string
+	// Cross: in the thorough tier the job is run again on z3 5.1 (z3-new) and cvc5 and the
+	// path counts and counterexample classes are compared.
+	Cross bool
 }
 
 type JobResult struct {
